@@ -32,3 +32,10 @@ Definition run_case (B npre npost : nat) (syn : list (list (nat * nat))) (dt : f
 (* the generated half kernels alone, against the real functions *)
 Definition run_kernels (diff lr tc : fl) : tree :=
   Nd [ser_float (exp_stdp_post_kernel FN diff lr tc); ser_float (exp_stdp_pre_kernel FN diff lr tc)].
+
+(* per-element hyperparameters (tensor-valued kernel keyword arguments): one trainer value per parameter element *)
+Definition run_case_ps (B npre npost : nat) (syn : list (list (nat * nat))) (dt : fl) (rk : Z) (trs : list (trainer FN))
+           (steps : list (stepin FN)) : tree :=
+  ser_list ser_step
+    (cell_run_ps FN (reduce FN (redk rk)) (mkCfg FN B npre npost syn dt (hd (TDaStdp FN 0 0 1 1) trs)) trs
+                 (mkCS FN None None) steps).
